@@ -1,5 +1,5 @@
 # replay of a bounded stand-in violation (C17/C02): re-run native/c17_decomp.py
 import sys
-print('bloch_messiah on one-squeezed (n=3, 2 unsqueezed modes): reconstruction 2.4e-15, orthogonal-symplectic structure error 0.88, diagonal error 5.8e-16')
+print('bloch_messiah on partially-degenerate (n=2, 0 unsqueezed modes): reconstruction 2.7e-15, orthogonal-symplectic structure error 2, diagonal error 1.1e-15')
 print('REPLAY-VIOLATION')
 sys.exit(1)
